@@ -939,7 +939,7 @@ class API:
             ):
                 if method_name not in self.all_methods:
                     selective_gapic_errors[method_name] = "Method does not exist."
-                elif not method_name.startswith(library_settings.version):
+                elif not method_name.startswith(library_settings.version + "."):
                     selective_gapic_errors[method_name] = (
                         "Mismatched version for method."
                     )
